@@ -42,7 +42,7 @@ LEVEL_NOTE = ("Trusted: Coq kernel, extraction, translator harness/translate/c10
               "are modelled by hand (their `if` tests are shape-checked by the translator, not translated). Defaults of inspected (non-visited) "
               "objects are plain strings and are not generated. The correspondence uses calls with at most 5 positionals (theorems: unbounded).")
 MODEL = ("Model.C10_ext", "run_C10")
-COQ_TARGETS = ["Proofs/C10_diff.vo", "Proofs/C10_complete.vo"]
+COQ_TARGETS = ["Proofs/C10_diff.vo", "Proofs/C10_complete.vo", "Proofs/C10_sound.vo", "Proofs/C10_rule.vo", "Proofs/C10_defaults.vo"]
 RULE = ("exhaustive well-formed signatures over names {a,b,c}, 5 kinds, default in {none,1,2}, <=2 parameters (436 signatures; quick: all identical "
         "pairs + all pairs of a seeded 150-subset; thorough: all ordered pairs) x call shapes (0..5 positionals x keyword subsets of {a,b,c,y,z} "
         "up to size 3, plus repeated keywords); seeded random/mutated pairs of <=5-parameter signatures; pairs whose defaults come from an "
@@ -234,11 +234,13 @@ class DInfo:
         self.key = json.dumps(self.sexp)
         self.classes = sorted({type(n).__name__ for n in ast.walk(self.tree) if isinstance(n, ast.expr)})
         self.arith = all(isinstance(n, ARITH_NODES) and (not isinstance(n, ast.Constant) or type(n.value) is int) for n in ast.walk(self.tree))
-        self.value = None          # ("int", z) | ("exc", name) | ("other", repr) for closed integer arithmetic
-        if self.arith and not _pow_too_big(self.tree):
+        self.value = None          # ("int", z) | ("exc", name) | ("other", repr) for closed integer arithmetic of moderate size
+        if self.arith:
             try:
-                v = eval(compile(ast.Expression(self.tree), "<default>", "eval", dont_inherit=True), {"__builtins__": {}})  # noqa: S307
+                v = _bounded_eval(self.tree)
                 self.value = ("int", v) if type(v) is int else ("other", repr(v))
+            except _TooBig:
+                self.value = None
             except Exception as e:  # noqa: BLE001
                 self.value = ("exc", type(e).__name__)
 
@@ -249,8 +251,28 @@ class DInfo:
         return cls.cache[text]
 
 
-def _pow_too_big(tree):
-    return sum(isinstance(n, ast.Pow) for n in ast.walk(tree)) > 2
+class _TooBig(Exception):
+    pass
+
+
+def _bounded_eval(node):
+    """CPython's own arithmetic, one operator at a time, refusing operands beyond 2**60 (the model's integers cross the
+    OCaml boundary as native ints) and exponents beyond 20."""
+    if isinstance(node, ast.Constant):
+        v = node.value
+    elif isinstance(node, ast.UnaryOp):
+        x = _bounded_eval(node.operand)
+        v = eval(compile(ast.Expression(ast.fix_missing_locations(ast.UnaryOp(node.op, ast.Constant(x)))), "<default>", "eval", dont_inherit=True))  # noqa: S307
+    else:
+        x, y = _bounded_eval(node.left), _bounded_eval(node.right)
+        if type(x) is not int or type(y) is not int:
+            raise _TooBig
+        if isinstance(node.op, ast.Pow) and (y > 20 or abs(x) > 2 ** 16):
+            raise _TooBig
+        v = eval(compile(ast.Expression(ast.fix_missing_locations(ast.BinOp(ast.Constant(x), node.op, ast.Constant(y)))), "<default>", "eval", dont_inherit=True))  # noqa: S307
+    if type(v) is int and abs(v) >= 2 ** 60:
+        raise _TooBig
+    return v
 
 
 def enc(sig):
@@ -268,7 +290,7 @@ def enc_plain(sig):
 
 
 # ------------------------------------------------------------------------------------------------ default-expression grammar
-LEAVES = ["0", "1", "2", "3", "10", "60", "x", "y", "'x'", "'y'", "None", "True", "1.5", "x.y", "b'x'", "...", "()"]
+LEAVES = ["0", "1", "2", "3", "10", "60", "x", "y", "'x'", "'y'", "'1'", "None", "True", "1.5", "x.y", "b'x'", "...", "()"]
 INTS = ["0", "1", "2", "3", "5", "10", "60"]
 BINOPS = ["+", "-", "*", "//", "%", "**", "/", "@", "<<", ">>", "&", "|", "^"]
 ARITHOPS = ["+", "-", "*", "*", "-", "+", "//", "%", "**"]
@@ -420,7 +442,7 @@ def _mutate_default(rng, text):
         leaves = [n for n in nodes if isinstance(n, (ast.Constant, ast.Name))]
         if leaves:
             n = rng.choice(leaves)
-            new = ast.parse(rng.choice(INTS + ["x", "y", "'x'"]), mode="eval").body
+            new = ast.parse(rng.choice(INTS + ["x", "y", "'x'", "'1'", "1.0", "True"]), mode="eval").body
             _replace(tree, n, new)
             return "leaf", ast.unparse(tree.body)
     if r < 0.68:
@@ -483,7 +505,7 @@ not (x and y)|not x and y|(x or y) and z|x or y and z|x|y|'x'|b'x'|x.y|x.z|x.y.z
 [1, 2]|[]|{}|{1: 2}|{1, 2}|{**x}|{None: x}|x[1]|x[1:2]|x[1, 2]|x[1:2, 3]|x[1:2:3]|x[::2]|x[:]|x if y else z|(x if y else z) if a else b|x if y else (z if a else b)|x if (y if z else a) else b
 lambda: 1|lambda a: a|lambda *a: a|lambda a=1: a|lambda a=(1, 2): a|lambda a, /: a|lambda *, a: a|f"{x}"|f"{x!r}"|f"{x:>3}"|f"{x:>4}"|f"a{x}b"|f"a{x}c"|"ab"|"a b"|1 < 2|1 < 2 < 3|(1 < 2) < 3|1 < (2 < 3)|1 is 2|1 is not 2
 x in y|x not in y|not x in y|(yield)|[a for a in x]|[a for a in x if a]|[a for a in y]|(a for a in x)|{a for a in x}|{a: a for a in x}|(a := 1)|x @ y|x // y|x / y|x % y|x << y|x >> y|x & y|x | y|x ^ y
-1.0|1e400|1j|None|True|False|...|16|10|-x|--x|not not x|x, *y|(x if y else z,)|x + -y|x - -y|-(x + y)|-x + y|(x, y)[0]|x[y][z]|x[y[z]]|g(x)(y)|g(x(y))|x and y or z|x and (y or z)|1 - 2 + 3|1 - (2 + 3)|2 * 3 // 4|2 * (3 // 4)""".replace("\n", "|").split("|")
+1.0|1e400|1j|None|True|False|...|16|10|'1'|'True'|'None'|b'1'|-x|--x|not not x|x, *y|(x if y else z,)|x + -y|x - -y|-(x + y)|-x + y|(x, y)[0]|x[y][z]|x[y[z]]|g(x)(y)|g(x(y))|x and y or z|x and (y or z)|1 - 2 + 3|1 - (2 + 3)|2 * 3 // 4|2 * (3 // 4)""".replace("\n", "|").split("|")
 
 
 # ------------------------------------------------------------------------------------------------ calls
@@ -634,6 +656,11 @@ def check_pairs(ctx, cache, pairs, stream, notes=None):
             if ("default", nm) not in rep:
                 fid = "C10-F8" if (NAMES.index(nm) in f8names and ("default", nm) not in mrep) else None
                 a, b = DInfo.of(od[nm][1][2]), DInfo.of(nd[nm][1][2])
+                if a.value and b.value and a.value == b.value:
+                    # closed arithmetic that CPython evaluates to the same value: the default VALUE did not change
+                    # (the correspondence above still compares the implementation with its model on this pair)
+                    ctx.observe("default_change", "unreported, same computed value")
+                    continue
                 ctx.property_failure({**case, "parameter": nm},
                                      {"changed default not reported": nm, "old_default": a.text, "new_default": b.text,
                                       "values": [a.value, b.value], "reported": idiff}, finding=fid)
